@@ -1,3 +1,16 @@
-import GffProofs.Lemmas.SplitJoin
-open GffProofs
-#print axioms split_join
+import GffProofs.Props.C06
+open GffProofs.C06
+#print axioms ofFeature_bin
+#print axioms insert_preserves
+#print axioms delete_preserves
+#print axioms replaceRow_preserves
+#print axioms modifyRow_preserves
+#print axioms bin_clause
+#print axioms region_overlap_exact
+#print axioms region_within_exact
+#print axioms limit_exact
+#print axioms one_sided_start
+#print axioms one_sided_end
+#print axioms one_sided_start_within
+#print axioms one_sided_end_within
+#print axioms null_coords_excluded
